@@ -294,6 +294,9 @@ func runC03(o *cli.Opts, run *evid.Run) {
 				return
 			}
 			c03Batch(run, sys, r, key, mode, b)
+			if k == 0 && blocks <= 2 && (o.Thorough() || (dm.d == 3 && dm.b == 2 && dm.ins) || (dm.d == 1 && dm.b == 1 && !dm.ins)) {
+				c03Generic(run, sys, key+"/generic", mode, b, o.Pick(6, 24))
+			}
 			for _, v := range b.vals {
 				if lz := leadingZeroBytes(v); lz > 0 {
 					run.Add("packed_values_with_leading_zero_bytes", 1)
@@ -344,6 +347,7 @@ func runC03(o *cli.Opts, run *evid.Run) {
 	run.Require("forged v+k*r decompositions fired", run.GetInt("forged_vkr_fired"), 20)
 	run.Require("forged decompositions of the value 0", run.GetInt("forged_zero_fired"), 1)
 	run.Require("two-block hash inputs", run.GetInt("two_block_cases"), 1)
+	run.Require("full circuits whose every hint call was discovered and forged", run.GetInt("generic_systems"), 2)
 }
 
 func c03Batch(run *evid.Run, sys *rmon.Sys, r *rand.Rand, key, mode string, b *batchC03) {
@@ -500,4 +504,57 @@ func c03Batch(run *evid.Run, sys *rmon.Sys, r *rand.Rand, key, mode string, b *b
 			solve(fmt.Sprintf("Nnb-idx%d-%d", i, j), "forged/non-boolean-index-digit", good, h, false, map[string]any{"index": i, "digit": j})
 		}
 	}
+}
+
+// c03Generic: dishonest prover without a strategy table. Every hint call the full circuit makes on this witness is
+// discovered in an honest solve (whatever hint it is), and each of the most frequent distinct calls is answered with
+// each generic perturbation. A forged solve is first tried with the canonical public input; when it is rejected at a
+// constraint that contains the public wire, the value that constraint asks for is computed from the solver's wire
+// vector and tried as the public input. Accepting a public input that is not the Keccak of the canonical packing of
+// the witness's own fields is the violation.
+func c03Generic(run *evid.Run, sys *rmon.Sys, key, mode string, b *batchC03, maxCalls int) {
+	h := b.hash()
+	calls, res := discoverCalls(sys, b.assignment(h), nil)
+	if !res.Accepted {
+		return // reported by the canonical case
+	}
+	run.Add("generic_systems", 1)
+	run.Add("generic_hint_calls_discovered", len(calls))
+	if len(calls) > maxCalls {
+		calls = calls[:maxCalls]
+	}
+	type job struct {
+		c forgeCall
+		p perturbation
+	}
+	var jobs []job
+	for _, c := range calls {
+		for _, p := range perturbations {
+			if c.nOut >= p.min {
+				jobs = append(jobs, job{c, p})
+			}
+		}
+	}
+	cli.ForEach(len(jobs), 4, func(i int) {
+		j := jobs[i]
+		in := j.c.in
+		if len(in) > 24 {
+			in = in[:24] + "…"
+		}
+		jkey := fmt.Sprintf("%s/hint=%d/out=%d/in=%s/%s", key, j.c.id, j.c.nOut, in, j.p.name)
+		var fired int64
+		r1, x := sys.SolveFixPublic(b.assignment(h), forgeOption(j.c, j.p, &fired, nil))
+		sample := map[string]any{"mode": mode, "hint": fmt.Sprint(j.c.id), "outputs": j.c.nOut, "hint_input": in, "perturbation": j.p.name, "calls_forged": fired, "rejected_at": r1.Site, "public_input_extracted": x != nil}
+		accepted := r1.Accepted
+		if !r1.Accepted && x != nil && x.Cmp(h) != 0 {
+			run.Add("generic_public_inputs_extracted", 1)
+			var f2 int64
+			if r2 := sys.SolveWith(b.assignment(x), forgeOption(j.c, j.p, &f2, nil)); r2.Accepted && f2 > 0 {
+				accepted = true
+				run.Violate(jkey, fmt.Sprintf("circuit ACCEPTS the public input 0x%s, which is not the keccak of the canonical packing of its witness (0x%s), when the prover answers hint %d (%d outputs) on input (%s) with %s (%d calls forged)", x.Text(16), h.Text(16), j.c.id, j.c.nOut, in, j.p.name, f2), b.describe())
+			}
+		}
+		run.Add("generic_forged_solves", 1)
+		run.Case(mode+"/generic/"+j.p.name, true, jkey, accepted, sample)
+	})
 }
